@@ -1,7 +1,7 @@
 From Coq Require Import List Arith Bool String.
 From Wire Require Import Sets Acyclic Solve Names Front Exec Model Emit Cli CopyAst ModelThms NamesThms Bridge ProcessWF Perm PermModel EmitThms Regroup RegroupModel SolveBound SolveBoundModel.
 From Wire Require Show ShowBound FrontRules InjBody.
-From Wire Require Rename.
+From Wire Require ExecThms Rename Imports.
 Import ListNotations.
 
 (* The property theorems.  This file contains nothing but statements closed by [exact lemma] and the
@@ -289,6 +289,65 @@ Theorem C04_success : forall fails plan pre,
 Proof. exact Exec.C04_success. Qed.
 Print Assumptions C04_success.
 
+(* C03 in the property's words (provider ids pairwise distinct, as the planner's calls are): no provider after the
+   failing one is called; the cleanups invoked are exactly those of the providers that had succeeded, once each; the
+   failing provider's own cleanup is never invoked *)
+Theorem C03_nothing_called_after_failure : forall fails plan pre s sigc,
+  split_fail fails plan = (pre, Some s) -> NoDup (map p_id plan) ->
+  forall post x, plan = pre ++ s :: post -> In x (map p_id post) ->
+  ~ In (ECall x) (fst (run_code fails (Exec.emit plan sigc))).
+Proof. exact ExecThms.later_providers_not_called. Qed.
+Print Assumptions C03_nothing_called_after_failure.
+
+Theorem C03_unwinds_exactly_the_succeeded : forall fails plan pre s sigc,
+  split_fail fails plan = (pre, Some s) ->
+  forall x, In (ECleanup x) (fst (run_code fails (Exec.emit plan sigc))) <->
+            (exists t, In t pre /\ p_cleanup t = true /\ p_id t = x).
+Proof. exact ExecThms.unwound_iff. Qed.
+Print Assumptions C03_unwinds_exactly_the_succeeded.
+
+Theorem C03_unwinds_once : forall fails plan pre s sigc,
+  split_fail fails plan = (pre, Some s) -> NoDup (map p_id plan) ->
+  NoDup (filter (fun e => match e with ECleanup _ => true | _ => false end) (fst (run_code fails (Exec.emit plan sigc)))).
+Proof. exact ExecThms.unwound_once. Qed.
+Print Assumptions C03_unwinds_once.
+
+Theorem C03_own_cleanup_never_runs : forall fails plan pre s sigc,
+  split_fail fails plan = (pre, Some s) -> NoDup (map p_id plan) ->
+  ~ In (ECleanup (p_id s)) (fst (run_code fails (Exec.emit plan sigc))).
+Proof. exact ExecThms.own_cleanup_never_runs. Qed.
+Print Assumptions C03_own_cleanup_never_runs.
+
+(* C04 in the property's words: the returned function invokes the cleanup of every cleanup-returning provider, of
+   nothing else, once each; a provider's cleanup runs before the cleanup of anything it was built from; no cleanup
+   runs before the caller invokes the returned function *)
+Theorem C04_releases_everything : forall fails plan pre,
+  split_fail fails plan = (pre, None) ->
+  forall x, In (ECleanup x) (snd (run_code fails (Exec.emit plan true))) <->
+            (exists s, In s plan /\ p_cleanup s = true /\ p_id s = x).
+Proof. exact ExecThms.cleanup_runs_iff. Qed.
+Print Assumptions C04_releases_everything.
+
+Theorem C04_releases_once : forall fails plan pre,
+  split_fail fails plan = (pre, None) -> NoDup (map p_id plan) ->
+  NoDup (snd (run_code fails (Exec.emit plan true))).
+Proof. exact ExecThms.cleanup_runs_once. Qed.
+Print Assumptions C04_releases_once.
+
+Theorem C04_dependents_released_first : forall fails plan pre b a,
+  split_fail fails plan = (pre, None) -> ExecThms.well_ordered [] plan ->
+  In b plan -> p_cleanup b = true -> In a (p_args b) ->
+  forall s, In s plan -> p_id s = a -> p_cleanup s = true -> NoDup (map p_id plan) ->
+  ExecThms.before (ECleanup (p_id b)) (ECleanup a) (snd (run_code fails (Exec.emit plan true))).
+Proof. exact ExecThms.cleanup_dependents_first. Qed.
+Print Assumptions C04_dependents_released_first.
+
+Theorem C04_nothing_released_early : forall fails plan pre,
+  split_fail fails plan = (pre, None) ->
+  forall x, ~ In (ECleanup x) (fst (run_code fails (Exec.emit plan true))).
+Proof. exact ExecThms.no_cleanup_before_return. Qed.
+Print Assumptions C04_nothing_released_early.
+
 (* ------------------------------------------------------------------ C14 *)
 (* disambiguate terminates (fuel |bad|+1 suffices for any finite collision set) and returns a name that is
    no keyword and does not collide *)
@@ -426,6 +485,14 @@ Theorem C16_collision_order_independent : forall bad bad' name,
   Permutation.Permutation bad bad' -> disamb_in bad name = disamb_in bad' name.
 Proof. exact disamb_in_perm. Qed.
 Print Assumptions C16_collision_order_independent.
+
+(* the import block of the generated file is the sorted list of g.imports' entries: whatever order the map is visited
+   in (Go randomises it), the block is the same *)
+Theorem C16_import_block_order_independent : forall visited visited' : list Imports.entry,
+  NoDup (map fst visited) -> Permutation.Permutation visited visited' ->
+  Imports.import_block visited = Imports.import_block visited'.
+Proof. exact Imports.import_block_order_independent. Qed.
+Print Assumptions C16_import_block_order_independent.
 
 (* ------------------------------------------------------------------ C02 / C06 on the concrete planner *)
 (* Hypotheses: wfb pm args = true is the boolean well-formedness certificate that the correspondence run
